@@ -78,7 +78,7 @@ FORMS_SUB = [f for f in FORMS if f.name in (
     "bin:+", "bin:**", "bin:~", "cmp:==", "and", "un:-", "cond", "f:upper", "f:safe", "f:escape", "f:join", "f:replace",
     "f:default(<d>)", "t:defined", "item:0", "slice:-:2:-", "list2")]
 
-FORMS_D3 = [f for f in FORMS if f.name in ("bin:+", "bin:**", "bin:~", "un:-", "cond-", "f:safe", "item:0")]
+FORMS_D3 = [f for f in FORMS if f.name in ("bin:+", "bin:**", "bin:~", "un:-", "cond-", "f:safe")]
 
 LEAF_VECTORS = [
     [G.Str("<a>"), G.Int(2), SAFE("<s>"), G.Int(1), G.Str("a"), G.List(G.Int(1), G.Str("<b>"))],
@@ -338,7 +338,7 @@ def run(ctx: core.Ctx):
         d1 = d1[::int(os.environ["VERIF_SMOKE"])]
     ctx.pmap(depth01_shard, d1)
     plan = [("d2-sub", space("d2-sub").count(), 3, 1, 200)] if quick else [
-        ("d2", space("d2").count(), 3, 2, 300), ("d3", space("d3").count(), 1, 1, 2000)]
+        ("d2", space("d2").count(), 2, 2, 300), ("d3", space("d3").count(), 1, 1, 2000)]
     shards = []
     for sname, cnt, nvec, nctx, chunk in plan:
         shards += [(sname, a, b, nvec, nctx) for a, b in ranges(cnt, chunk)]
